@@ -104,5 +104,5 @@ C09_QUICK_PREFIXES = [
     "C02.e1.signature.", "C02.e2.sig.", "C02.e2.stack.", "C03.e1.signature.",  # u16 / i32 truncation and overflow
     "C07.e3.helper.rotate.3", "C11.e3.helper.remove_n.3", "C07.e3.helper.dup_values.3", "C07.e3.helper.copy_n_down.3",  # slice index / rotate preconditions
     "C16.e3.map.",             # probe loops: index arithmetic, `*len -= 1`
-    "C17.", "C08.e3.", "C09.", "C11.e3.frames.",
+    "C17.e1.", "C17.e3.load.", "C17.e3.rep.roundtrip.list3.", "C08.e3.", "C09.", "C11.e3.frames.reset", "C11.e3.frames.call_leaf.1_2",
 ]
